@@ -93,6 +93,40 @@ def r6(P, C):
         C.anchor_missing("R6", "Invite::hash_val / create", e)
 
 
+def r7(P, C):
+    """necessary condition of "the same token on both sides": the token of two distinct keys is a function of the
+    x25519 shared secret only (symmetric in the two key pairs); any other input (own public key, a local value)
+    would make the two sides derive different tokens.  The shared secret itself is arithmetic: not decided."""
+    try:
+        b = P.body("security::MeetingSecret::token")
+        C.saw(b)
+        hs = b.calls_to(r"security::hash$")
+        C.floor("R7", "hash calls of MeetingSecret::token", len(hs), 2)
+        for bi, t in hs:
+            arg = b.call_args(bi, expand_vars=True)[0]
+            same = None
+            for sw, vals, term in b.guards(bi):
+                atom, truth = mir.cond_atoms(term, vals)
+                if "their_public" in term_str(atom) and "public_key" in term_str(atom):
+                    same = truth
+            txt = term_str(arg)
+            leaves = sorted(set(field_path(x) for x in mir.leaves(arg) if x[0] in ("var", "param", "upvar", "field")))
+            if same is True:
+                ok = "diffie_hellman" not in txt and all(re.search(r"self(\.secret)?$", l) for l in leaves)
+                C.ob("R7", "same-key-token", ok, b.loc(bi), "own key on both sides: token = hash(own secret): %s" % txt[:80])
+            else:
+                dh = mir.has_call(arg, r"StaticSecret::diffie_hellman$")
+                ok = same is False and dh is not None and all(re.search(r"(self(\.secret)?|their_public)$", l) for l in leaves)
+                inner = [x for x in mir.subterms(arg) if x[0] == "call" and not re.search(r"diffie_hellman$|as_bytes$", x[1])]
+                ok = ok and not inner
+                C.ob("R7", "pair-token-is-shared-secret-only", ok, b.loc(bi), "token of two distinct keys = hash(x25519(own secret, their public)) and nothing else: %s" % txt[:90])
+        cp = b.calls_to(r"copy_from_slice$")
+        ok = len(cp) == 1 and "hash" in term_str(b.call_args(cp[0][0])[1]) and "token" in term_str(b.call_args(cp[0][0])[0])
+        C.ob("R7", "token-is-hash-prefix", ok, b.loc(cp[0][0]) if cp else b.loc(), "the token is a prefix of that hash")
+    except mir.MissingAnchor as e:
+        C.anchor_missing("R7", "MeetingSecret::token", e)
+
+
 def run(P, C, tier):
     C.explanation = (
         "Static decision of the handshake ordering on the coroutine CFG of initialise_connection and of its caller: the "
@@ -108,6 +142,8 @@ def run(P, C, tier):
     C.rule("R5", "an invitation is consumed once: invite_accepted tests that the invitation is still present before its effects, deletes it and removes its token")
     C.rule("R6", "an invitation is accepted only for the application it names: storing it and arming its meeting token lie on the equal edge of inv.application == self.app_key; the signed invitation digest covers the application name; created invitations name this instance's application")
     r6(P, C)
+    C.rule("R7", "necessary condition of token symmetry: the token for two distinct keys hashes the x25519 shared secret and nothing else")
+    r7(P, C)
     try:
         b = P.body(INIT)
     except mir.MissingAnchor as e:
